@@ -169,6 +169,8 @@ Definition api_rename (k dst : bytes) (now : Z) (d : db) : bool * db :=
   match write_key k None now d with
   | (None, d1) => (true, d1)
   | (Some m, d1) =>
+      if bytes_eqb k dst then (false, d1)   (* renaming a key to itself changes nothing *)
+      else
       let '(odst, d2) := write_key dst None now d1 in
       let d3 := del_meta k d2 in
       match odst with
@@ -541,8 +543,8 @@ Definition api_lrange (k : bytes) (a b now : Z) (d : db) : res (list bytes) :=
   end.
 
 (* LPopRPush / RPopLPush.  The final v[0] panics when nothing was popped (missing source).
-   Same source and destination with more than one element re-locks a held mutex: that
-   self-deadlock is outside the sequential model ([Unm]). *)
+   Same source and destination: the command already holds the key (tx.go lockKey is reentrant within one
+   command) and a rotation keeps its key even when the list is empty for a moment. *)
 Definition api_move (lpop : bool) (src dst : bytes) (now : Z) (d : db) : res (option bytes) :=
   match write_key src None now d with
   | (None, d1) => Panic d1
@@ -554,10 +556,8 @@ Definition api_move (lpop : bool) (src dst : bytes) (now : Z) (d : db) : res (op
           match r with
           | None => Panic d1
           | Some vs =>
-              if bytes_eqb src dst && negb (list_llen l' =? 0) then Unm
-              else
               let d2 := set_val_of m (VList l') d1 in
-              let d3 := if list_llen l' =? 0 then del_meta src d2 else d2 in
+              let d3 := if (list_llen l' =? 0) && negb (bytes_eqb src dst) then del_meta src d2 else d2 in
               let d4 := signal src m d3 in
               match write_key dst new_list now d4 with
               | (None, _) => Unm
@@ -823,8 +823,6 @@ Definition api_smove (src dst mem : bytes) (now : Z) (d : db) : res bool :=
           let '(n, s') := set_srem [mem] s in
           if n =? 0 then Ok false d1
           else
-            if bytes_eqb src dst then Unm   (* re-locks the held key: self-deadlock *)
-            else
             let d2 := signal src m (set_val_of m (VSet s') d1) in
             match write_key dst new_set now d2 with
             | (None, _) => Unm
